@@ -197,6 +197,11 @@ fn main() {
 
     sink.merge(struct_sweep(&run, &[&MSG_HANDSHAKE], &cat::handshake_many(), run.tier.pick(0, 1), &sfx, 32, &no_extra));
 
+    for style in [1u8, 3, 4] {
+        use vcommon::en::with_fill_style as wfs;
+        sink.merge(struct_sweep(&run, &[&MSG_HANDSHAKE], &wfs(style, || cat::handshake_messages(false)), 0, &sfx, 64, &no_extra));
+    }
+
     // (2) body-level: the same catalogue without the 4-byte header through each pub body parser
     let mut by_type: std::collections::BTreeMap<u8, Vec<W>> = std::collections::BTreeMap::new();
     for m in &msgs {
